@@ -49,11 +49,17 @@ func vfVal(s string) ([]byte, bool) {
 	return b, err == nil
 }
 
+// values up to 300 bytes are compared in full; longer ones (C40's multi-megabyte values) by
+// length and a rolling checksum over every byte (same function in Driver/TSM.lean)
 func vfShowVal(v []byte) string {
-	if len(v) <= 100 {
+	if len(v) <= 300 {
 		return verifh.Hex(v)
 	}
-	return fmt.Sprintf("L%d:%s", len(v), verifh.Hex(v[:4]))
+	h := uint64(7)
+	for _, b := range v {
+		h = (h*31 + uint64(b) + 1) % 4294967296
+	}
+	return fmt.Sprintf("L%d:%d", len(v), h)
 }
 
 func vfErr(err error) string {
@@ -183,7 +189,9 @@ type vfExec struct {
 	ts        *TState
 	store     vfStore
 	view      *TStateView
-	keysScope state.Keys // nil = CompletePermissions
+	other     *TStateView // a second view open on the same TState (view2 / swap)
+	twoView   bool        // interleaved views: tie only, the single-view spec does not apply
+	keysScope state.Keys  // nil = CompletePermissions
 
 	oracle bool
 	spec   *vfSpec // nil until the first view
@@ -194,8 +202,10 @@ type vfExec struct {
 
 	pendingV       []vfViol
 	extra          func(f []string) (string, bool) // property-specific extra op lines
+	after          func(f []string, out string)    // property-specific verdict on an executed line
 	seqStart       int
 	seqMut         int
+	seqDenied      int
 	seqInteresting bool
 	seqText        strings.Builder
 }
@@ -203,6 +213,8 @@ type vfExec struct {
 func newVfExec(r *verifh.Run, oracle bool) *vfExec {
 	return &vfExec{r: r, ctx: context.Background(), oracle: oracle}
 }
+
+func (e *vfExec) specOn() bool { return e.oracle && !e.twoView && e.spec != nil }
 
 func (e *vfExec) computeUnder() {
 	e.under = vfKV{}
@@ -224,6 +236,70 @@ func (e *vfExec) computeUnder() {
 	}
 }
 
+func vfShowNat(universe []string, m map[string]uint16) string {
+	var parts []string
+	for _, k := range universe {
+		if n, ok := m[k]; ok {
+			parts = append(parts, fmt.Sprintf("%s=%d", verifh.Hex([]byte(k)), n))
+		}
+	}
+	if len(parts) == 0 {
+		return "-"
+	}
+	return strings.Join(parts, ",")
+}
+
+// dumpView renders every field of the view and of the TState behind it (all keys, sorted).
+func (e *vfExec) dumpView() string {
+	var sb strings.Builder
+	maybeMap := func(name string, m map[string]maybe.Maybe[[]byte]) {
+		ks := make([]string, 0, len(m))
+		for k := range m {
+			ks = append(ks, k)
+		}
+		sort.Strings(ks)
+		sb.WriteString(name + "{")
+		for _, k := range ks {
+			if m[k].IsNothing() {
+				fmt.Fprintf(&sb, "%x=N;", k)
+			} else {
+				fmt.Fprintf(&sb, "%x=S:%x;", k, m[k].Value())
+			}
+		}
+		sb.WriteString("}")
+	}
+	natMap := func(name string, m map[string]uint16) {
+		ks := make([]string, 0, len(m))
+		for k := range m {
+			ks = append(ks, k)
+		}
+		sort.Strings(ks)
+		sb.WriteString(name + "{")
+		for _, k := range ks {
+			fmt.Fprintf(&sb, "%x=%d;", k, m[k])
+		}
+		sb.WriteString("}")
+	}
+	maybeMap("pending", e.view.pendingChangedKeys)
+	natMap("allocates", e.view.allocates)
+	natMap("writes", e.view.writes)
+	sb.WriteString("ops[")
+	for _, o := range e.view.ops {
+		pa, pw := "nil", "nil"
+		if o.pastAllocates != nil {
+			pa = strconv.Itoa(int(*o.pastAllocates))
+		}
+		if o.pastWrites != nil {
+			pw = strconv.Itoa(int(*o.pastWrites))
+		}
+		fmt.Fprintf(&sb, "%d:%x:%x:%s:%s;", o.t, o.k, o.pastV, pa, pw)
+	}
+	sb.WriteString("]")
+	maybeMap("changed", e.ts.changedKeys)
+	fmt.Fprintf(&sb, "tsops=%d", e.ts.ops)
+	return sb.String()
+}
+
 func (e *vfExec) showChanged() string {
 	parts := make([]string, 0, len(e.universe))
 	for _, k := range e.universe {
@@ -243,7 +319,7 @@ func (e *vfExec) showChanged() string {
 // sweep compares the whole visible state of the real view (unexported getValue, so the scope
 // does not hide anything) with the spec's current map.
 func (e *vfExec) sweep(class string, line string) {
-	if !e.oracle || e.spec == nil || e.view == nil {
+	if !e.oracle || e.twoView || e.spec == nil || e.view == nil {
 		return
 	}
 	for _, k := range e.universe {
@@ -283,6 +359,9 @@ func (e *vfExec) flushViol() {
 func (e *vfExec) exec(l string) {
 	out := e.exec1(l)
 	e.r.Emit(l, out)
+	if e.after != nil {
+		e.after(verifh.Fields(l), out)
+	}
 	e.flushViol()
 }
 
@@ -384,13 +463,21 @@ func (e *vfExec) exec1(l string) (out string) {
 			st.fail[string(kb)] = true
 		}
 		e.universe, e.ts, e.store, e.view, e.spec = universe, ts, st, nil, nil
+		e.other, e.twoView = nil, false
 		e.computeUnder()
-		e.seqMut, e.seqInteresting = 0, false
+		e.seqMut, e.seqDenied, e.seqInteresting = 0, 0, false
 		e.seqText.Reset()
 		e.seqText.WriteString(l)
 		return "ok"
-	case "view":
-		if len(f) != 2 || e.ts == nil {
+	case "swap":
+		if len(f) != 1 || e.view == nil || e.other == nil {
+			return "bad-op"
+		}
+		e.view, e.other = e.other, e.view
+		e.seqText.WriteString("|" + l)
+		return "ok"
+	case "view", "view2":
+		if len(f) != 2 || e.ts == nil || (f[0] == "view2" && e.view == nil) {
 			return "bad-op"
 		}
 		var sc state.Keys
@@ -414,12 +501,18 @@ func (e *vfExec) exec1(l string) (out string) {
 			}
 		}
 		e.keysScope = sc
+		if f[0] == "view2" {
+			e.other, e.twoView = e.view, true
+		} else {
+			e.other = nil
+		}
 		if sc == nil {
 			e.view = e.ts.NewView(state.CompletePermissions, e.store, 0)
 		} else {
 			e.view = e.ts.NewView(sc, e.store, 0)
 		}
-		if e.oracle {
+		e.seqMut = 0
+		if e.oracle && !e.twoView {
 			e.computeUnder()
 			e.spec = &vfSpec{under: e.under, broken: e.broken, cur: e.under.clone(), can: e.can(sc), fits: e.fits}
 		}
@@ -440,12 +533,22 @@ func (e *vfExec) exec1(l string) (out string) {
 		if err != nil {
 			return "bad-op"
 		}
+		dump := ""
+		if e.oracle {
+			dump = e.dumpView()
+		}
 		v, gerr := e.view.GetValue(e.ctx, kb)
 		out = vfErr(gerr)
 		if gerr == nil {
 			out = vfShowVal(v)
 		}
-		if e.oracle {
+		if out == "perm" {
+			e.seqDenied++
+		}
+		if e.oracle && e.dumpView() != dump {
+			e.viol("read-changed-state", "%q changed the view or its TState", l)
+		}
+		if e.specOn() {
 			if want := e.spec.get(string(kb)); want != out {
 				e.viol("get-mismatch", "%q returned %s, the most recent write/delete (else block changes, else parent) is %s", l, out, want)
 			}
@@ -460,15 +563,22 @@ func (e *vfExec) exec1(l string) (out string) {
 		if err != nil || !ok {
 			return "bad-op"
 		}
-		before, beforeP := e.view.OpIndex(), e.view.PendingChanges()
+		before := e.view.OpIndex()
+		dump := ""
+		if e.oracle {
+			dump = e.dumpView()
+		}
 		out = vfErr(e.view.Insert(e.ctx, kb, vb))
 		if e.view.OpIndex() != before {
 			e.seqMut++
 		}
-		if e.oracle && out != "ok" && (e.view.OpIndex() != before || e.view.PendingChanges() != beforeP) {
-			e.viol("failed-op-changed-state", "%q failed with %s but the op index / pending changes moved", l, out)
+		if out == "perm" {
+			e.seqDenied++
 		}
-		if e.oracle {
+		if e.oracle && out != "ok" && e.dumpView() != dump {
+			e.viol("failed-op-changed-state", "%q failed with %s but the view or its TState changed (pending/allocates/writes/undo log/changedKeys)", l, out)
+		}
+		if e.specOn() {
 			if want := e.spec.insert(string(kb), vb); want != out {
 				e.viol("op-result-mismatch", "%q returned %s, spec says %s", l, out, want)
 			}
@@ -483,27 +593,62 @@ func (e *vfExec) exec1(l string) (out string) {
 		if err != nil {
 			return "bad-op"
 		}
-		before, beforeP := e.view.OpIndex(), e.view.PendingChanges()
+		before := e.view.OpIndex()
+		dump := ""
+		if e.oracle {
+			dump = e.dumpView()
+		}
 		out = vfErr(e.view.Remove(e.ctx, kb))
 		if e.view.OpIndex() != before {
 			e.seqMut++
 		}
-		if e.oracle && out != "ok" && (e.view.OpIndex() != before || e.view.PendingChanges() != beforeP) {
-			e.viol("failed-op-changed-state", "%q failed with %s but the op index / pending changes moved", l, out)
+		if out == "perm" {
+			e.seqDenied++
 		}
-		if e.oracle {
+		if e.oracle && out != "ok" && e.dumpView() != dump {
+			e.viol("failed-op-changed-state", "%q failed with %s but the view or its TState changed (pending/allocates/writes/undo log/changedKeys)", l, out)
+		}
+		if e.specOn() {
 			if want := e.spec.remove(string(kb)); want != out {
 				e.viol("op-result-mismatch", "%q returned %s, spec says %s", l, out, want)
 			}
 			e.sweep("visible-state-mismatch", l)
 		}
 		return out
+	case "keyops":
+		if len(f) != 1 {
+			return "bad-op"
+		}
+		al, wr := e.view.KeyOperations()
+		pend := 0
+		for _, k := range e.universe {
+			if _, ok := e.view.pendingChangedKeys[k]; ok {
+				pend++
+			}
+		}
+		if e.oracle {
+			// bookkeeping invariants of the view, checked on the real maps
+			if len(wr) != e.view.PendingChanges() {
+				e.viol("bookkeeping-mismatch", "writes has %d keys, pendingChangedKeys %d", len(wr), e.view.PendingChanges())
+			}
+			for k := range wr {
+				if _, ok := e.view.pendingChangedKeys[k]; !ok {
+					e.viol("bookkeeping-mismatch", "writes records key %x which has no pending change", k)
+				}
+			}
+			for k := range al {
+				if pc, ok := e.view.pendingChangedKeys[k]; !ok || pc.IsNothing() {
+					e.viol("bookkeeping-mismatch", "allocates records key %x which is not a pending created value", k)
+				}
+			}
+		}
+		return fmt.Sprintf("a:%s w:%s p=%d", vfShowNat(e.universe, al), vfShowNat(e.universe, wr), pend)
 	case "opindex":
 		if len(f) != 1 {
 			return "bad-op"
 		}
 		n := e.view.OpIndex()
-		if e.oracle && n != len(e.spec.snaps) {
+		if e.specOn() && n != len(e.spec.snaps) {
 			e.viol("opindex-mismatch", "OpIndex()=%d but %d checkpoints exist in the spec", n, len(e.spec.snaps))
 		}
 		return strconv.Itoa(n)
@@ -519,7 +664,7 @@ func (e *vfExec) exec1(l string) (out string) {
 			e.seqInteresting = true
 		}
 		e.view.Rollback(e.ctx, n)
-		if e.oracle {
+		if e.specOn() {
 			if !e.spec.rollback(n) {
 				e.viol("opindex-mismatch", "rollback %d accepted by the view (OpIndex was >= %d) but the spec has %d checkpoints", n, n, len(e.spec.snaps))
 			} else {
@@ -544,10 +689,10 @@ func (e *vfExec) exec1(l string) (out string) {
 		if e.seqMut > 0 {
 			e.seqInteresting = true
 		}
-		if e.oracle {
+		if e.specOn() {
 			e.checkCommit(l, before, opsBefore, viewOps)
 		}
-		e.view = nil
+		e.view, e.other = e.other, nil
 		return fmt.Sprintf("ops=%d %s", e.ts.OpIndex(), e.showChanged())
 	}
 	return "bad-op"
